@@ -89,4 +89,7 @@ HARNESS(harness_two_tests_1_5) { body(1, 5); }
 HARNESS(harness_two_tests_1_4) { body(1, 4); }
 HARNESS(harness_two_tests_3_3) { body(3, 3); }
 HARNESS(harness_two_tests_0_0) { body(0, 0); }
-HARNESS(harness_two_tests_9_0) { body(9, 0); }   /* two leaks in test 1 (run with ONE hash bucket: they share a chain); test 2 clean */
+HARNESS(harness_two_tests_9_0) { body(9, 0); }
+HARNESS(harness_two_tests_9_5) { body(9, 5); }
+HARNESS(harness_two_tests_11_3) { body(11, 3); }
+HARNESS(harness_two_tests_9_4) { body(9, 4); }   /* two leaks in test 1 (run with ONE hash bucket: they share a chain); test 2 clean */
